@@ -111,16 +111,19 @@ impl Model {
 //@end
 
 pub fn insert_rows_validated_prefix(&mut self, sheet: u32, row: i32, row_count: i32) -> (r: Result<(), String>)
-    requires small(row_count as int)
-    ensures r.is_err() ==> *final(self) == *old(self)
+    requires small(row_count as int), small(row as int)
+    ensures r.is_err() ==> *final(self) == *old(self),
+        // the inserted block lies on the sheet: it is exactly what the undo (delete_rows of the same block) accepts (C01)
+        r.is_ok() ==> row_count > 0 && 1 <= row && row + row_count - 1 <= 1048576,
 {
 //@fragment base/src/actions.rs Model::insert_rows `if row_count <= 0 {` .. `let worksheet = &self.workbook.worksheet(sheet)?;`
 //@end
     Ok(())
 }
 pub fn insert_columns_validated_prefix(&mut self, sheet: u32, column: i32, column_count: i32) -> (r: Result<(), String>)
-    requires small(column_count as int)
-    ensures r.is_err() ==> *final(self) == *old(self)
+    requires small(column_count as int), small(column as int)
+    ensures r.is_err() ==> *final(self) == *old(self),
+        r.is_ok() ==> column_count > 0 && 1 <= column && column + column_count - 1 <= 16384,
 {
 //@fragment base/src/actions.rs Model::insert_columns `if column_count <= 0 {` .. `let worksheet = self.workbook.worksheet(sheet)?;`
 //@end
